@@ -61,7 +61,8 @@ CheckEquGraph(e) ==
       usedCyclic == \E x \in used : onCycle(x)
       anyCycle == \E x \in 1..e.n : onCycle(x)
   IN /\ Terminal(e)
-     /\ usedCyclic => e.outcome = "err"          \* a cyclic definition that is used has no meaning
+     \* (a cyclic definition that is used has no meaning; gmars answers with an error, but no listed property says what an
+     \*  ill-formed program must produce beyond C05's terminal-state predicate above, so that is not demanded here)
      /\ ~anyCycle => e.outcome = "ok"            \* acyclic definitions always resolve
 Check(e) == CASE e.ev = "prog" -> CheckProg(e) [] e.ev = "out" -> CheckOut(e)
               [] e.ev = "fuzz" -> Terminal(e) [] e.ev = "equgraph" -> CheckEquGraph(e) [] OTHER -> FALSE
